@@ -122,6 +122,42 @@
         std::mem::forget(res); std::mem::forget(l); std::mem::forget(r);
     }
 
+//# ob name=fold_cmp_in_calls_ops fn=compiler::ast::eval_compare kind=complete plumbing=true fallback=literal_variable_native stubs=contains stmt="eval_compare(In, l, r) == ops::contains(r, l).ok(): one call, container first, the result passed through"
+//# ob name=fold_cmp_notin_negates fn=compiler::ast::eval_compare kind=complete plumbing=true fallback=literal_variable_native stubs=contains stmt="eval_compare(NotIn, l, r) is the boolean negation of what ops::contains(r, l) returned: one call, container first, Some(Bool(!truthy))"
+    #[kani::proof]
+    #[kani::unwind(2)]
+    #[kani::stub(ops::contains, rec_op)]
+    fn fold_cmp_in_calls_ops() {
+        let l = Value::from(kani::any::<i64>()); let r = Value::from(kani::any::<i64>());
+        let v: i64 = kani::any();
+        unsafe { CALLS = 0; RET_OK = true; RET_VAL = v; }
+        let res = eval_compare(CompareOpKind::In, &l, &r);
+        unsafe {
+            assert!(CALLS == 1);
+            assert!(ARG_L == &r as *const Value as usize && ARG_R == &l as *const Value as usize);
+        }
+        match &res { Some(x) => { assert!(small_of(x) == Some(v as i128)); } None => { assert!(false); } }
+        kani::cover!(v != 0, "contained");
+        std::mem::forget(res); std::mem::forget(l); std::mem::forget(r);
+    }
+    #[kani::proof]
+    #[kani::unwind(2)]
+    #[kani::stub(ops::contains, rec_op)]
+    fn fold_cmp_notin_negates() {
+        let l = Value::from(kani::any::<i64>()); let r = Value::from(kani::any::<i64>());
+        let v: i64 = kani::any();
+        unsafe { CALLS = 0; RET_OK = true; RET_VAL = v; }
+        let res = eval_compare(CompareOpKind::NotIn, &l, &r);
+        unsafe {
+            assert!(CALLS == 1);
+            assert!(ARG_L == &r as *const Value as usize && ARG_R == &l as *const Value as usize);
+        }
+        match &res { Some(x) => { assert!(bool_of(x) == Some(v == 0)); } None => { assert!(false); } }
+        kani::cover!(v == 0, "not contained");
+        kani::cover!(v != 0, "contained");
+        std::mem::forget(res); std::mem::forget(l); std::mem::forget(r);
+    }
+
     // ---- the observable itself, BOUNDED and native: literal form versus variable form through the real engine
 //# ob name=literal_variable_native role=native_bounded fn=compiler::ast::Expr::as_const+compiler::codegen kind=bounded bound="binary operators {+,-,*,/,//,%,**,~,and,or,in,==,!=,<,<=,>,>=} x 27 literals (integer boundaries 2^63/2^64/2^127/2^128-1, 0, +-1, floats, strings, booleans, none, lists, maps) for both operands, every subset of the two literals hoisted into variables; unary -/not; 3-link comparison chains over 6 literals; map literals with 2 entries over 5 keys (equal keys included: the same key twice, 1 / 1.0 / true) x 5 values and list / tuple / nested literals with 3 items, every subset of the slots hoisted, 6 + 9 observers; exhaustive (about 1.2*10^5 renders)" stmt="replacing any literal by a variable bound to the same value never changes the rendered output and never turns success into failure or vice versa; a failing constant expression does not fail at load time, only when executed"
     fn literal_variable_native() {
@@ -174,6 +210,21 @@
             let var = render(&format!("{{{{ x {o1} y {o2} z }}}}"), crate::context! { x => value_of(a), y => value_of(b), z => value_of(c) });
             assert!(lit == var, "{a} {o1} {b} {o2} {c}: literal {lit:?} variable {var:?}");
             n += 1;
+        }}}}}
+        // comparison chains over all eight comparison operators, `in` / `not in` links included, with container and
+        // string operands; all-literal, all-variable and each single operand hoisted
+        let chain_ops = ["<", "<=", "==", "!=", ">", ">=", "in", "not in"];
+        let chain_vals: &[&str] = &["1", "2", "'a'", "[1, 2]", "'ab'", "none"];
+        for a in chain_vals { for b in chain_vals { for c in chain_vals { for o1 in chain_ops { for o2 in chain_ops {
+            let ctx = crate::context! { x => value_of(a), y => value_of(b), z => value_of(c) };
+            let reference = render(&format!("{{{{ x {o1} y {o2} z }}}}"), ctx.clone());
+            for mask in [0u32, 1, 2, 4] {
+                let pick = |i: u32, lit: &str, var: &str| if mask & (1 << i) != 0 { var.to_string() } else { format!("({lit})") };
+                let src = format!("{{{{ {} {o1} {} {o2} {} }}}}", pick(0, a, "x"), pick(1, b, "y"), pick(2, c, "z"));
+                let got = render(&src, ctx.clone());
+                assert!(got == reference, "{src}: {got:?} but the all-variable form gives {reference:?}");
+                n += 1;
+            }
         }}}}}
         // keyword arguments with literal values (incl. negated numbers and container literals) versus variables
         let mut env2 = Environment::new();
